@@ -41,10 +41,10 @@ func (vc *VC) localsEnv(st *State, fr *Frame) *Env {
 		if nl.isAddr {
 			et := deref(nl.ty)
 			vc.noFacts++
-			env.bind(n, vc.loadAt(st, nl.v, et), et)
+			env.bindLocal(n, vc.loadAt(st, nl.v, et), et)
 			vc.noFacts--
 		} else {
-			env.bind(n, nl.v, nl.ty)
+			env.bindLocal(n, nl.v, nl.ty)
 		}
 	}
 	return env
@@ -54,7 +54,7 @@ func (vc *VC) loopEnvL(st *State, fr *Frame, phis []*ssa.Phi, vals []T) *Env {
 	env := vc.localsEnv(st, fr)
 	for i, p := range phis {
 		if n := phiName(p); n != "" {
-			env.bind(n, vals[i], p.Type())
+			env.bindLocal(n, vals[i], p.Type())
 		}
 	}
 	return env
@@ -128,6 +128,12 @@ func (vc *VC) loopHead(st *State, fr *Frame, h, pred *ssa.BasicBlock, back bool,
 	if !all {
 		vc.loopFrame(st, fr, n, keys, "entry")
 	}
+	preHeap := map[string]string{}
+	for _, k := range keys {
+		if _, ok := vc.heapSort[k]; ok {
+			preHeap[k] = vc.heapName(st, k, vc.heapSort[k])
+		}
+	}
 	if all {
 		vc.havocAll(st)
 	} else {
@@ -147,6 +153,7 @@ func (vc *VC) loopHead(st *State, fr *Frame, h, pred *ssa.BasicBlock, back bool,
 		}
 		vc.bumpMark(st)
 		vc.loopFrame(st, fr, n, keys, "assume")
+		vc.keepPrivateAllocs(st, fr, h, keys, preHeap)
 	}
 	hv := make([]T, len(phis))
 	for i, p := range phis {
@@ -259,6 +266,7 @@ func (vc *VC) forkOpcases(st *State, fr *Frame, h *ssa.BasicBlock, skip int) {
 			vc.assumeCond(s, t.S)
 		}
 		old.assumes = append([]string(nil), s.assumes...)
+		old.conds = append([]bool(nil), s.conds...)
 		s.trail = append(s.trail, oc.Name)
 		vc.step(s, f, h, skip)
 	}
@@ -330,6 +338,9 @@ func (vc *VC) scanMods(blocks []*ssa.BasicBlock, set map[string]bool, all *bool,
 		for _, in := range b.Instrs {
 			switch x := in.(type) {
 			case *ssa.Store:
+				if g, ok := x.Addr.(*ssa.Global); ok {
+					set["G_"+mangle(g.Pkg.Pkg.Path()+"."+g.Name())] = true
+				}
 				if fa, ok := x.Addr.(*ssa.FieldAddr); ok {
 					pt := fa.X.Type().Underlying().(*types.Pointer).Elem()
 					si := vc.structOf(pt)
@@ -380,6 +391,9 @@ func (vc *VC) scanMods(blocks []*ssa.BasicBlock, set map[string]bool, all *bool,
 								continue
 							}
 						}
+					}
+					if !c.IsInvoke() && vc.blk != nil && vc.blk.HasUse("dyncalls-pure") {
+						continue
 					}
 					*all = true
 					continue
@@ -495,8 +509,22 @@ func NewVC(P *Program, fn *ssa.Function, blk *Block, opt Options) *VC {
 }
 
 func (vc *VC) markImmutable(spec string) {
-	// pkg.Struct.Field
+	// pkg.Struct.Field   |   pkg.GlobalMap (contents frozen after package initialisation)
 	parts := strings.Split(spec, ".")
+	if len(parts) == 2 {
+		for path, sp := range vc.P.ByPath {
+			if shortPkg(path) != parts[0] {
+				continue
+			}
+			if obj := sp.Pkg.Scope().Lookup(parts[1]); obj != nil {
+				if _, ok := obj.Type().Underlying().(*types.Map); ok {
+					mk := vc.mapInfo(obj.Type())
+					vc.heapImm[mk.has], vc.heapImm[mk.val], vc.heapImm[mk.len] = true, true, true
+				}
+			}
+		}
+		return
+	}
 	if len(parts) != 3 {
 		return
 	}
@@ -662,6 +690,9 @@ func Verify(P *Program, blk *Block, opt Options) (res *Result) {
 		vc.assumeCond(pre, t.S)
 	}
 	for _, c := range blk.Unfolds {
+		if strings.HasPrefix(c.Text, "@return ") {
+			continue
+		}
 		ec := &evalCtx{vc: vc, now: pre, old: pre, pkg: fn.Pkg.Pkg, env: vc.baseEnv(ctx), fn: fn}
 		vc.pure++
 		f, err := ec.unfold(c.Text)
@@ -685,6 +716,7 @@ func Verify(P *Program, blk *Block, opt Options) (res *Result) {
 	}
 	vc.entry = pre.clone()
 	vc.entry.assumes = append([]string(nil), st.assumes...)
+	vc.entry.conds = append([]bool(nil), st.conds...)
 	ctx.old = vc.entry
 	fr.ret = func(s *State, self *Frame, rs []T) {
 		vc.atReturn(s, self, rs)
@@ -696,6 +728,13 @@ func Verify(P *Program, blk *Block, opt Options) (res *Result) {
 		vc.obligs = append(vc.obligs, o)
 	}
 	vc.enter(st, fr, fn.Blocks[0], nil)
+	if vc.Err == nil {
+		for _, ac := range blk.AtClosure {
+			if vc.atUsed[ac.Clause.Text] == 0 {
+				vc.fail(fmt.Errorf("%s:%d: site assertion never applicable (no matching closure / call with these locals): %s", ac.Clause.File, ac.Clause.Line, ac.Clause.Text))
+			}
+		}
+	}
 	res.Obligs = vc.obligs
 	res.Paths = vc.paths
 	res.Err = vc.Err
@@ -725,6 +764,25 @@ func (vc *VC) atReturn(st *State, fr *Frame, rs []T) {
 			env.bind(n, rs[i], sig.Results().At(i).Type())
 		}
 	}
+	// definitions unfolded at the return point (they may mention `result`)
+	for _, c := range blk.Unfolds {
+		if !strings.HasPrefix(c.Text, "@return ") {
+			continue
+		}
+		ec := &evalCtx{vc: vc, now: st, old: vc.entry, pkg: vc.fn.Pkg.Pkg, fn: vc.fn}
+		ec.env = vc.baseEnv(st.ctx)
+		e2 := *env
+		e2.parent = ec.env
+		ec.env = &e2
+		vc.pure++
+		f, err := ec.unfold(strings.TrimPrefix(c.Text, "@return "))
+		vc.pure--
+		if err != nil {
+			vc.fail(fmt.Errorf("%s:%d: %v", c.File, c.Line, err))
+			return
+		}
+		vc.assume(st, f)
+	}
 	for i, c := range blk.Ensures {
 		t, err := vc.evalClause(st.ctx, st, vc.entry, c.Text, env)
 		if err != nil {
@@ -739,13 +797,98 @@ func (vc *VC) atReturn(st *State, fr *Frame, rs []T) {
 	if blk.Fresh && len(rs) == 1 {
 		vc.oblige(st, "ensures", "fresh", and(app(">", app("root", rs[0].S), vc.entry.mark), not(eq(rs[0].S, "0"))), nil, "")
 	}
-	if blk.HasMod || blk.Pure {
+	// the frame is always an obligation: without a `modifies` clause the
+	// function may only write memory it allocated itself
+	if len(blk.Opcases) == 0 && !(vc.fn.Name() == "init" && vc.fn.Parent() == nil) {
 		vc.frameObligations(st)
 	}
 	if vc.canaries {
 		vc.canary(st, "return")
 	}
 	vc.pathEnd()
+}
+
+// keepPrivateAllocs: a local variable that lives in memory (its address is
+// only used for loads, stores and field access in this function) and that
+// the loop does not write keeps its contents across the loop-head havoc.
+func (vc *VC) keepPrivateAllocs(st *State, fr *Frame, h *ssa.BasicBlock, keys []string, preHeap map[string]string) {
+	li := vc.loops(fr.fn)
+	body := li.body[h]
+	for v, t := range fr.vals {
+		al, ok := v.(*ssa.Alloc)
+		if !ok || al.Parent() != fr.fn || st.escaped[t.S] {
+			continue
+		}
+		if body[al.Block()] {
+			continue // allocated inside the loop
+		}
+		if !vc.allocUntouchedIn(al, body) {
+			continue
+		}
+		for _, k := range keys {
+			o, ok := preHeap[k]
+			if !ok || vc.heapImm[k] {
+				continue
+			}
+			n := vc.heapName(st, k, vc.heapSort[k])
+			if n == o {
+				continue
+			}
+			vc.assume(st, fmt.Sprintf("(forall ((a Int)) (! (=> (= (root a) %s) (= (select %s a) (select %s a))) :pattern ((select %s a))))", t.S, n, o, n))
+		}
+	}
+}
+
+// allocUntouchedIn: inside the given blocks the allocation is only read
+// (loads, field/element address computation feeding loads).
+func (vc *VC) allocUntouchedIn(al *ssa.Alloc, body map[*ssa.BasicBlock]bool) bool {
+	var ok func(v ssa.Value, depth int) bool
+	ok = func(v ssa.Value, depth int) bool {
+		if depth > 6 {
+			return false
+		}
+		refs := v.Referrers()
+		if refs == nil {
+			return true
+		}
+		for _, r := range *refs {
+			switch x := r.(type) {
+			case *ssa.DebugRef:
+			case *ssa.UnOp:
+				// load: fine anywhere
+			case *ssa.Store:
+				if x.Val == v {
+					return false // address stored somewhere: escapes
+				}
+				if body[x.Block()] {
+					return false
+				}
+			case *ssa.FieldAddr:
+				if !ok(x, depth+1) {
+					return false
+				}
+			case *ssa.IndexAddr:
+				if !ok(x, depth+1) {
+					return false
+				}
+			default:
+				// calls, closures, conversions ...: may write through the address
+				if in, isInstr := r.(ssa.Instruction); isInstr && !body[in.Block()] {
+					// outside the loop: whether it escaped on this path is tracked by st.escaped
+					if _, isCall := r.(ssa.CallInstruction); isCall {
+						return false
+					}
+					if _, isMC := r.(*ssa.MakeClosure); isMC {
+						return false
+					}
+					continue
+				}
+				return false
+			}
+		}
+		return true
+	}
+	return ok(al, 0)
 }
 
 // frameGoal: heap array k agrees with its entry version outside the
@@ -769,7 +912,7 @@ func (vc *VC) frameGoal(st *State, k string, tg []modTarget) string {
 // invariant for the heap arrays the loop may write: asserted on the entry
 // edge and on every back edge, assumed after the havoc at the loop head.
 func (vc *VC) loopFrame(st *State, fr *Frame, n int, keys []string, mode string) {
-	if !fr.top || st.ctx == nil || st.ctx.blk != vc.blk || !(vc.blk.HasMod || vc.blk.Pure) || vc.entry == nil || st.baseVer != "0" {
+	if !fr.top || st.ctx == nil || st.ctx.blk != vc.blk || len(vc.blk.Opcases) > 0 || vc.entry == nil || st.baseVer != "0" {
 		return
 	}
 	tg, err := vc.modTargets(vc.blk, vc.fn.Pkg.Pkg, vc.baseEnv(st.ctx), vc.entry)
